@@ -2410,6 +2410,13 @@ func (checker *Checker) checkDefaultDestroyEvent(
 	defer checker.leaveValueScope(eventDeclaration.EndPosition, true)
 
 	for index, param := range eventType.ConstructorParameters {
+		// The event type is looked up by name, so for an (invalid) redeclaration of the event
+		// it might have been declared by another declaration, with a different parameter list.
+		// The redeclaration is reported separately
+		if index >= len(constructorFunctionParameters) {
+			break
+		}
+
 		checker.checkDefaultDestroyEventParam(
 			param,
 			eventDeclaration,
